@@ -193,6 +193,7 @@ func (c *myConn) columnDef(table, name, typ string) error {
 // identifiers become double-quoted, `?` placeholders become $1..$n. Returns the
 // number of placeholders.
 func translateMySQL(sql string) (string, int) {
+	sql = dropConvertBinary(sql)
 	var out strings.Builder
 	n := 0
 	inStr := byte(0)
@@ -219,11 +220,67 @@ func translateMySQL(sql string) (string, int) {
 		case '?':
 			n++
 			out.WriteString("$" + strconv.Itoa(n))
+		case '0':
+			// hexadecimal literal 0xABCD -> X'ABCD'
+			if i+2 < len(sql) && (sql[i+1] == 'x' || sql[i+1] == 'X') && isHexDigit(sql[i+2]) && (i == 0 || !isIdentChar(sql[i-1])) {
+				j := i + 2
+				for j < len(sql) && isHexDigit(sql[j]) {
+					j++
+				}
+				out.WriteString("X'" + sql[i+2:j] + "'")
+				i = j - 1
+				continue
+			}
+			out.WriteByte(ch)
 		default:
 			out.WriteByte(ch)
 		}
 	}
 	return out.String(), n
+}
+
+func isHexDigit(c byte) bool {
+	return c >= '0' && c <= '9' || c >= 'a' && c <= 'f' || c >= 'A' && c <= 'F'
+}
+
+func isIdentChar(c byte) bool {
+	return c == '_' || c >= '0' && c <= '9' || c >= 'a' && c <= 'z' || c >= 'A' && c <= 'Z'
+}
+
+// dropConvertBinary rewrites MySQL's convert(<expr>, binary) to (<expr>): on byte strings it is the identity.
+func dropConvertBinary(sql string) string {
+	for {
+		low := strings.ToLower(sql)
+		i := strings.Index(low, "convert(")
+		if i < 0 || (i > 0 && isIdentChar(sql[i-1])) {
+			return sql
+		}
+		depth, j := 0, i+len("convert")
+		inStr := false
+		for ; j < len(sql); j++ {
+			switch {
+			case sql[j] == '\'':
+				inStr = !inStr
+			case inStr:
+			case sql[j] == '(':
+				depth++
+			case sql[j] == ')':
+				depth--
+			}
+			if depth == 0 && !inStr {
+				break
+			}
+		}
+		if j >= len(sql) {
+			return sql
+		}
+		inner := sql[i+len("convert(") : j]
+		k := strings.LastIndex(strings.ToLower(inner), ",")
+		if k < 0 || strings.TrimSpace(strings.ToLower(inner[k+1:])) != "binary" {
+			return sql
+		}
+		sql = sql[:i] + "(" + inner[:k] + ")" + sql[j+1:]
+	}
 }
 
 func tagCount(tag string) uint64 {
